@@ -604,6 +604,11 @@ func (w *world) step(st J) J {
 			if from, ok := st["frombuf"]; ok {
 				b = append([]byte{}, w.bufs[str(from)]...)
 			}
+			if fs, ok := st["fromslot"]; ok {
+				if sm, ok := w.objs[name].(*cose.SignMessage); ok {
+					b = append([]byte{}, sm.Signatures[num(fs)].Signature...)
+				}
+			}
 			switch o := w.objs[name].(type) {
 			case *cose.Sign1Message:
 				o.Signature = b
@@ -641,6 +646,18 @@ func (w *world) step(st J) J {
 			case *cose.Countersignature:
 				o.Headers.Unprotected, o.Headers.RawUnprotected = h.Unprotected, nil
 			}
+		case "getsig":
+			// copy the object's signature bytes into a buffer (environment step for replay attempts)
+			switch o := w.objs[name].(type) {
+			case *cose.Sign1Message:
+				w.bufs[str(st["buf"])] = append([]byte{}, o.Signature...)
+			case *cose.Signature:
+				w.bufs[str(st["buf"])] = append([]byte{}, o.Signature...)
+			case *cose.Countersignature:
+				w.bufs[str(st["buf"])] = append([]byte{}, o.Signature...)
+			}
+		case "probe":
+			// no operation: only reports the projected state of the object
 		case "scribble":
 			b := w.bufs[str(st["buf"])]
 			for i := range b {
